@@ -358,3 +358,71 @@ def all_token_seqs(maxlen):
         frontier = [s + [t] for s in frontier for t in reps]
         seqs += frontier
     return seqs
+
+
+# ----------------------------------------------------------------------------- data-aware expressions
+
+def _ident_ok(k):
+    return k and (k[0].isalpha() or k[0] == "_") and all(ch.isalnum() and ord(ch) < 128 or ch == "_" for ch in k)
+
+
+def key_spelling(k):
+    import json as _j
+    return k if _ident_ok(k) else _j.dumps(k)
+
+
+def path_expr(rng, doc, wrap=True):
+    """An expression (text) that walks into the python JSON value `doc` along existing keys / indexes, ending with a
+    random tail (projection, function call, comparison, multi-select), so that results are mostly non-null."""
+    parts = []
+    cur = doc
+    for _ in range(rng.randrange(0, 4)):
+        if isinstance(cur, dict) and cur:
+            k = rng.choice(sorted(cur))
+            parts.append(("." if parts else "") + key_spelling(k))
+            cur = cur[k]
+        elif isinstance(cur, list) and cur:
+            i = rng.randrange(-len(cur), len(cur))
+            parts.append(("" if parts else "@") + "[%d]" % i)
+            cur = cur[i]
+        else:
+            break
+    base = "".join(parts) or "@"
+    if not wrap:
+        return base
+    r = rng.random()
+    if isinstance(cur, list):
+        tails = ["[*]", "[]", "[::-1]", "[1:]", "[:2]", "[?@]", "[?@ != `null`]"]
+        fns = ["length(%s)", "reverse(%s)", "to_string(%s)", "type(%s)", "not_null(%s)", "to_array(%s)"]
+        if cur and all(isinstance(x, (int, float)) and not isinstance(x, bool) for x in cur):
+            fns += ["sort(%s)", "max(%s)", "min(%s)", "sum(%s)", "avg(%s)"]
+        if cur and all(isinstance(x, str) for x in cur):
+            fns += ["sort(%s)", "join(', ', %s)", "max(%s)"]
+        if cur and all(isinstance(x, dict) for x in cur):
+            ks = sorted({k for x in cur for k in x})
+            if ks:
+                k = key_spelling(rng.choice(ks))
+                tails += ["[*].%s" % k, "[?%s]" % k, "[].%s" % k, "[*].[%s]" % k, "[*].{x: %s}" % k]
+                fns += ["map(&%s, %%s)" % k]
+    elif isinstance(cur, dict):
+        tails = [".*", ".* | [0]"]
+        fns = ["keys(%s)", "values(%s)", "length(%s)", "to_string(%s)", "type(%s)", "merge(%s, `{\"zz\": 1}`)"]
+        if cur:
+            ks = [key_spelling(k) for k in sorted(cur)]
+            tails += [".[%s]" % ", ".join(rng.sample(ks, min(len(ks), 2))), ".{p: %s, q: @}" % ks[0]]
+    elif isinstance(cur, str):
+        tails = [" == 'a'", " || 'dflt'"]
+        fns = ["length(%s)", "reverse(%s)", "to_string(%s)", "type(%s)", "to_number(%s)", "starts_with(%s, 'a')", "contains(%s, 'a')", "to_array(%s)"]
+    elif isinstance(cur, (int, float)) and not isinstance(cur, bool):
+        tails = [" > `0`", " == `1`", " <= `1.5`"]
+        fns = ["abs(%s)", "ceil(%s)", "floor(%s)", "to_string(%s)", "type(%s)", "to_number(%s)", "to_array(%s)"]
+    else:
+        tails = [" || 'dflt'", " && 'yes'", " == `null`"]
+        fns = ["type(%s)", "to_string(%s)", "not_null(%s, 'z')", "!%s"]
+    if r < 0.25:
+        return base
+    if r < 0.6:
+        return base + rng.choice(tails)
+    if r < 0.9:
+        return rng.choice(fns) % base
+    return "[%s, %s]" % (base, rng.choice(fns) % base)
